@@ -282,3 +282,5 @@ func stringsReplaceAll(s, old, new string) string {
 	return string(bytes.ReplaceAll([]byte(s), []byte(old), []byte(new)))
 }
 func bytesContains(b []byte, c byte) bool { return bytes.IndexByte(b, c) >= 0 }
+
+func stringsContains(s, sub string) bool { return bytes.Contains([]byte(s), []byte(sub)) }
